@@ -78,8 +78,13 @@ def handleRange (st : St) (op : String) (j : Json) : Option (D (St × Json)) :=
       | .error .raises => "raises"
       | .error .outOfFuel => "outOfFuel"
       | .error .negInsert => "negInsert"
+    -- the hypotheses of `delete_total` (Props/C11.lean), evaluated for requests with an empty slice only
+    let hyp : Json := if sl.content.isEmpty && sl.openStart == 0 && sl.openEnd == 0 then
+        Json.mkObj [("fillers", Json.bool S.fillersOKB), ("valid", Json.bool (S.checkNode d)),
+          ("attrs", Json.bool (S.nodeAttrsOK d)), ("topTextblock", Json.bool (S.isTextblockO (S.tyOf d)))]
+      else Json.null
     return (st, ok (Json.mkObj [("partial", Json.bool (!sl.noPartialNode S)), ("term", Json.bool sl.termGuard),
-      ("wf", Json.bool sl.wf), ("det", Json.bool (PM.FromDom.detB S)), ("model", Json.str outcome)]))
+      ("wf", Json.bool sl.wf), ("det", Json.bool (PM.FromDom.detB S)), ("model", Json.str outcome), ("hyp", hyp)]))
   | "fillBeforeO" => some do
     let S ← getSchema st j
     let dfa := S.dfa (← nat (← field j "ty"))
